@@ -304,6 +304,9 @@ Step(n, e) ==
          /\ UNCHANGED << cfg, st, ws, ended, cbs, win, closeRet, closeOK, connCloses, lastDel, lastNow, pendGarbage, cbSeen, k4, k2, pend, closing, texit >>
     [] e.k = "end" ->
          /\ On("C15") => Require(closing => closeOK <= 1, n, "close-result", [successful_closes |-> closeOK])
+         \* a run that was let free after a drift is recorded up to quiescence: a Close that was called has returned
+         /\ (On("C15") /\ Has(e, "drifted") /\ e.drifted /\ ~(Has(e, "free") /\ e.free)) =>
+               Require((Has(e, "close_started") /\ e.close_started) => e.close_returned, n, "close-did-not-return", [closing |-> closing])
          \* quiescence: Close returned and every Start returned
          /\ (On("C10") /\ closeRet /\ \A s \in DOMAIN st : st[s].ret # "none") =>     \* ("wait": a Do whose Start returned nil)
               \A s \in DOMAIN st :
